@@ -15,7 +15,7 @@ from .c01 import shape_sig
 
 PROP = 'C03'
 LEVEL = 'exploration'
-N = {'quick': 20000, 'thorough': 1000000}
+N = {'quick': 14000, 'thorough': 1000000}
 RULE = ('seeded worlds (stub-made; all 17 types, contiguous/interleaved, typeless and empty channels, DAQmx and '
         'scaled channels when the world generator emits them); per world 3-4 handles drawn from {read, open} x '
         '{SimFile stream, SimFS path, BytesIO, real path} x {memmap_dir None, real dir} x {raw_timestamps F, T}; on '
